@@ -372,4 +372,77 @@ example : expandBC [u] [.essential cu, .essential cF] = .error .notTrial := by r
 example : (equation true true "a" "l" (.many [.fn u, .fn F]) (.many [.fn u, .fn F])
     (.many [.essential cF])).toOption.map (fun o => (o.lhs, o.rhs)) = some ("a", "l") := by decide
 
+/-! ### histories: several equations from shared condition objects -/
+
+theorem run_wf (w : World) (ops : List Op) (hw : w.WF) : (run w ops).WF := by
+  induction ops generalizing w with
+  | nil => exact hw
+  | cons op ops ih => exact ih (step w op) (step_wf w op hw)
+
+/-- **history_independent** — whatever the caller does afterwards (new conditions, further
+    equations built from the SAME condition objects with other trial lists, repositioning of its
+    own objects), an equation built earlier reports the same bc entries. -/
+theorem history_independent (w : World) (ops : List Op) (hw : w.WF) (k : Nat) (hk : k < w.eqs.length) :
+    readEq (run w ops) k = readEq w k := by
+  induction ops generalizing w with
+  | nil => rfl
+  | cons op ops ih =>
+    show readEq (run (step w op) ops) k = _
+    rw [ih (step w op) (step_wf w op hw) (Nat.lt_of_lt_of_le hk (step_eqs_prefix w op k hk).2), step_frame w op hw k hk]
+
+/-- **build_keeps_callers** — building equations (and creating conditions) never changes an
+    object that existed before: the caller's conditions keep all their attributes. -/
+theorem build_keeps_callers (w : World) (ops : List Op) (hops : ∀ op ∈ ops, ∀ a p, op ≠ .reposition a p)
+    (a : Nat) (ha : a < w.heap.length) : (run w ops).heap[a]? = w.heap[a]? := by
+  induction ops generalizing w with
+  | nil => rfl
+  | cons op ops ih =>
+    show (run (step w op) ops).heap[a]? = _
+    have h1 := step_heap_prefix w op (hops op (by simp)) a ha
+    have hlen : a < (step w op).heap.length := by
+      have : (step w op).heap[a]? = some w.heap[a] := by rw [h1]; exact List.getElem?_eq_getElem ha
+      exact (List.getElem?_eq_some_iff.mp this).1
+    rw [ih (step w op) (fun o ho => hops o (by simp [ho])) hlen, h1]
+
+/-- **build_entries** — a successful construction adds one equation whose entries are the result
+    of `expandBC` on the CURRENT attributes of the given objects. -/
+theorem build_entries (w : World) (trials : List Fn) (addrs : List Nat) (cs out : List Cond)
+    (hget : getAll w.heap addrs = some cs) (hex : expandBC trials (cs.map .essential) = .ok out) :
+    (step w (.build trials addrs)).eqs.length = w.eqs.length + 1 ∧
+    readEq (step w (.build trials addrs)) w.eqs.length = some out := by
+  simp only [step, hget, hex, readEq, List.length_append, List.length_cons, List.length_nil, true_and]
+  simp [getAll_fresh]
+
+/-- **positions_survive_history** — the entries of an equation carry, and keep carrying after any
+    later operations, the index of the constrained unknown among the trial functions of THAT
+    equation. -/
+theorem positions_survive_history (w : World) (hw : w.WF) (trials : List Fn) (addrs : List Nat)
+    (cs out : List Cond) (hget : getAll w.heap addrs = some cs) (hwf : ∀ c ∈ cs, IsCond c)
+    (hex : expandBC trials (cs.map .essential) = .ok out) (ops : List Op) :
+    readEq (run (step w (.build trials addrs)) ops) w.eqs.length = some out ∧
+    ∀ e ∈ out, ∃ p t, e.position = some p ∧ trials[p]? = some t ∧ t.same e.var = true ∧
+      ∀ q, q < p → ∀ t', trials[q]? = some t' → t'.same e.var = false := by
+  have hb := build_entries w trials addrs cs out hget hex
+  refine ⟨?_, position_is_index trials cs out hwf hex⟩
+  rw [history_independent _ ops (step_wf w _ hw) _ (by rw [hb.1]; exact Nat.lt_succ_self _), hb.2]
+
+/-! the seeded behaviour: the single-face fast path stores and repositions the caller's object -/
+
+def pS : Fn := .scalar "p"
+def w0 : World := { heap := [cu], eqs := [] }
+
+/-- **aliased_breaks_history** — with the aliasing variant, building a second equation from the
+    same single-face condition with the unknown at another index changes what the FIRST equation
+    reports, and the caller's object; with `step` neither happens. -/
+theorem aliased_breaks_history :
+    let wa := stepAliased (stepAliased w0 (.build [u, pS] [0])) (.build [pS, u] [0])
+    let wg := step (step w0 (.build [u, pS] [0])) (.build [pS, u] [0])
+    (readEq (stepAliased w0 (.build [u, pS] [0])) 0).map (·.map (·.position)) = some [some 0] ∧
+    (readEq wa 0).map (·.map (·.position)) = some [some 1] ∧
+    (wa.heap[0]?).map (·.position) = some (some 1) ∧
+    (readEq wg 0).map (·.map (·.position)) = some [some 0] ∧
+    (readEq wg 1).map (·.map (·.position)) = some [some 1] ∧
+    (wg.heap[0]?).map (·.position) = some none := by
+  decide
+
 end Sympde.BC
